@@ -93,11 +93,17 @@ impl<'a> UnusedLiteralVisitor<'a> {
             return position.clone();
         }
 
-        // Create a new position spanning the entire line
+        // Create a new position spanning the entire line. If it
+        // includes the newline, it ends at the start of the next line.
+        let end_line_start = src[..line_end].rfind('\n').map(|pos| pos + 1).unwrap_or(0);
+        let lines_spanned = src[line_start..line_end].matches('\n').count();
+
         let mut line_position = position.clone();
         line_position.start_offset = line_start;
         line_position.end_offset = line_end;
         line_position.column = 0;
+        line_position.end_line_number = position.line_number + lines_spanned;
+        line_position.end_column = line_end - end_line_start;
 
         line_position
     }
